@@ -187,12 +187,26 @@ def run_oracle(ctx, runs):
     fails = []
     for name, conf, actions in runs:
         seed = ctx.rng.getrandbits(32)
+        import ikesa as _ikesa
+        from unittest import mock
         with Pair(seed=seed, **conf) as p:
             p.sim_seed = seed
+            # every IkeSa object ever constructed at an endpoint, including the ones that live for one dispatch only
+            # (cookie challenge, error answer to an IKE_SA_INIT request, ignored request): the stamp oracle asks for the
+            # owner of every emitted datagram
+            made = {id(p.A): [], id(p.B): []}
+            orig_init = _ikesa.IkeSa.__init__
+
+            def init(self_, *a, _made=made, _sim=p.sim, **k):
+                orig_init(self_, *a, **k)
+                if _sim.current is not None and id(_sim.current) in _made:
+                    _made[id(_sim.current)].append(self_)
             for ep in (p.A, p.B):
-                ep.creation_objs = (lambda ep=ep: [o for o in _all_sas(ep)])
+                ep.creation_objs = (lambda ep=ep: [o for o in _all_sas(ep)] + made[id(ep)])
             orc = WindowOracle(ctx)
             p.hooks.append(orc)
+            patcher = mock.patch.object(_ikesa.IkeSa, '__init__', init)
+            patcher.start()
             try:
                 for a in actions:
                     p.do(a)
@@ -203,6 +217,8 @@ def run_oracle(ctx, runs):
                     orc.finish(p)
             except LoopEscape as ex:
                 orc.fail(p, 'loop:escaped-exception', repr(ex.exc))
+            finally:
+                patcher.stop()
             fails += orc.fails
         if len(fails) > 3:
             break
@@ -226,7 +242,7 @@ def oracle(ctx, deep):
     runs = sc.plan(ctx, walks_quick=6, walks_thorough=60, walk_len=35)
     if not deep:
         runs = [r for r in runs if r[0].split('/')[0] in ('handshake', 'rekey_child', 'rekey_ike', 'replay_requests',
-                                                          'retransmit_request', 'delete_child', 'dpd',
+                                                          'retransmit_request', 'delete_child', 'dpd', 'cookie_handshake',
                                                           'simultaneous_rekey_child')
                 or r[0].startswith('walk')][:22]
     return run_oracle(ctx, runs)
